@@ -313,6 +313,33 @@ fn manyvars(rng: &mut StdRng) -> Value {
     json!({"seeds": seeds, "steps": steps, "tag": "manyvars"})
 }
 
+/// composite expressions over the real float table with exact (dyadic) values: + - * / min max and signs, infix with and
+/// without parentheses and in call form, nested; the point is dyadic so that f32/f64 compute without rounding (C19)
+fn floatcomp(rng: &mut StdRng) -> Value {
+    fn gen(rng: &mut StdRng, depth: u32) -> String {
+        if depth == 0 || rng.random_bool(0.2) {
+            return ["x", "y", "z", "1", "2", "3", "0.5", "0.25", "4", "1.5"].choose(rng).unwrap().to_string();
+        }
+        if rng.random_bool(0.12) {
+            let a = gen(rng, depth - 1);
+            return match rng.random_range(0..3) { 0 => format!("-({a})"), 1 => format!("+({a})"), _ => format!("-{a}") };
+        }
+        let op = *["+", "-", "*", "min", "max", "/", "+", "*", "min", "max"].choose(rng).unwrap();
+        let (a, b) = (gen(rng, depth - 1), gen(rng, depth - 1));
+        let b = if op == "/" { ["2", "4", "0.5"].choose(rng).unwrap().to_string() } else { b };
+        match rng.random_range(0..10) {
+            0..=3 => format!("{op}({a}, {b})"),                  // call form
+            4 => format!("{op} ({a},{b})"),
+            5..=7 => format!("({a}) {op} ({b})"),                // infix, parenthesised operands
+            _ => format!("{a} {op} {b}"),                        // infix, precedence decides
+        }
+    }
+    let pts = [(1i64, 1i64), (2, 1), (-1, 1), (1, 2), (3, 2), (-3, 4), (5, 4), (3, 1)];
+    let point: Vec<Value> = ["x", "y", "z"].iter().map(|n| { let p = pts.choose(rng).unwrap(); json!([cps(n), p.0, p.1]) }).collect();
+    let depth = rng.random_range(1..=4);
+    json!({"text": cps(&gen(rng, depth)), "point": point, "tag": "floatcomp"})
+}
+
 pub fn val_table_json() -> Value {
     Value::Array(
         real_table("val")
@@ -483,6 +510,7 @@ pub fn main(args: &[String]) -> i32 {
             "print" => ops(&mut rng, &["print", "op", "std", "subs", "conv", "partial", "print"]),
             "advnames" => advnames(&mut rng),
             "manyvars" => manyvars(&mut rng),
+            "floatcomp" => floatcomp(&mut rng),
             "valdiff" => valdiff(&mut rng),
             _ => ops(&mut rng, &["op", "std", "conv", "subs", "print", "partial"]),
         };
